@@ -45,7 +45,8 @@
 EXTENDS PipeLifeMon, TLC, Json
 
 CONSTANTS Variant,     \* "ok" | "no_reset_on_set_output" | "no_reset_on_flow_change" |
-                       \* "ignore_reject" | "log_after_dead" | "late_ready" | "dead_twice"
+                       \* "ignore_reject" | "log_after_dead" | "late_ready" | "dead_twice" |
+                       \* "silent_flow_change"
           EmitEdges,   \* TRUE: print every transition
           OptModes     \* subset of BOOLEAN: values of hasopt explored
 
@@ -70,7 +71,7 @@ SetOut(r, s) ==
             !.ost = IF Variant = "no_reset_on_set_output" THEN @ ELSE "NONE"]
 
 StoreFlowDef(r, changed, name) ==
-  IF ~changed THEN r
+  IF ~changed \/ Variant = "silent_flow_change" THEN r
   ELSE Say([r EXCEPT !.ost = IF Variant = "no_reset_on_flow_change" THEN @ ELSE "NONE"],
            EvP(P, "new_flow_def", name))
 
@@ -89,7 +90,8 @@ Send(r, retried) ==
   ELSE LET r2 == NeedOutput(r1) IN
        IF r2.out = r.out \/ retried THEN [r2 EXCEPT !.ost = "INVALID"] ELSE r2
 
-Deliver(r) == Say(r, EvSinkIn(r.out))
+\* the pipe forwards at once: the buffer belongs to the flow last set on the input
+Deliver(r) == Say(r, EvSinkIn(r.out, r.fdin))
 WarnDrop(r) == Say(Say(r, EvP(P, "log", "")), EvDrop)
 
 Finish(r) == CASE r.ost = "VALID" -> Deliver(r)
@@ -107,7 +109,7 @@ Output(r0) ==
 
 \* ---- transitions ----------------------------------------------------------
 Obs == [alive |-> alive, fdin |-> fdin, dict |-> dict, hasopt |-> hasopt, out |-> out,
-        ost |-> ost, pol |-> pol, armed |-> armed, link |-> mon.link]
+        ost |-> ost, pol |-> pol, armed |-> armed, link |-> mon.link, seen |-> mon.seen]
 
 Emit == EmitEdges => PrintT(<<"EDGE", ToJson([from |-> Obs, to |-> Obs', cmd |-> cmd', obs |-> obs'])>>)
 
@@ -145,7 +147,9 @@ Plain(e) == alive = "yes" /\ Apply(Cur, EvCmd(e, P, 0))
 In == alive = "yes" /\ Apply(Output(Cur), EvCmd("In", P, 0))
 
 \* observer: upipe_get_flow_def answers the stored flow definition
-GetFd == alive = "yes" /\ Apply(Say(Cur, EvGotFd(P, fdin)), EvCmd("GetFd", P, 0))
+\* (silent_flow_change: a pipe that keeps presenting the stale output definition)
+GetFd == alive = "yes" /\ Apply(Say(Cur, EvGotFd(P, IF Variant = "silent_flow_change" /\ mon.cur[P] # "?"
+                                                    THEN mon.cur[P] ELSE fdin)), EvCmd("GetFd", P, 0))
 
 Out(s) == alive = "yes" /\ Apply(SetOut(Cur, s), EvOut(P, s))
 
